@@ -163,6 +163,7 @@ class ChoicesValidateMulti(_Geno):
   target = f'{GC}:Choices.validate'
   name = 'Choices.validate/multi'
   exc_class_invalid = ValueError
+  branch_timeout_ms = 600    # quantified path conditions: do not wait at forks
   raises = {IndexError: ()}
 
   def inputs(self, b):
